@@ -439,15 +439,25 @@ impl MrtInRunner {
                     MrtInRunner::process_state_change(&gate, &ingresses, parent_id, sc).await;
                 }
                 Bgp4Mp::Message(msg) => {
-                    let (reach, unreach) = MrtInRunner::process_message(&gate, &ingresses, parent_id, msg.into()).await?; 
-                    announcements_sent += reach;
-                    withdrawals_sent += unreach;
-                    
+                    match MrtInRunner::process_message(&gate, &ingresses, parent_id, msg.into()).await {
+                        Ok((reach, unreach)) => {
+                            announcements_sent += reach;
+                            withdrawals_sent += unreach;
+                        }
+                        // An UPDATE that cannot be taken apart contributes
+                        // nothing, like a message that cannot be parsed at
+                        // all; the records behind it are still imported.
+                        Err(e) => error!("skipping BGP4MP message: {e}"),
+                    }
                 }
                 Bgp4Mp::MessageAs4(msg) => {
-                    let (reach, unreach) = MrtInRunner::process_message(&gate, &ingresses, parent_id, msg).await?;
-                    announcements_sent += reach;
-                    withdrawals_sent += unreach;
+                    match MrtInRunner::process_message(&gate, &ingresses, parent_id, msg).await {
+                        Ok((reach, unreach)) => {
+                            announcements_sent += reach;
+                            withdrawals_sent += unreach;
+                        }
+                        Err(e) => error!("skipping BGP4MP message: {e}"),
+                    }
                     messages_processed += 1;
                 }
             }
